@@ -92,21 +92,24 @@ CHECKS = {
 # later additions to the level texts (kept apart so that the table above stays readable)
 ADDENDA = {
     "C01": " Members whose addresses travel as 16-byte IPv4 (addresses compared as addresses).",
-    "C02": " Accusations that arrive while the node has nobody to gossip to (fresh start, or every peer dead for longer than GossipToTheDeadTime): the refutation must survive the idle gossip rounds and reach the first peer that becomes known.",
-    "C03": " Scenario dimensions also include IPv6 addresses, a transport implementing only the older Transport interface, GossipNodes 1/6.",
-    "C04": " Members on IPv6 addresses; delegates whose LocalState takes 0.3-2.5 s.",
-    "C05": " Veteran restarts that come back with exactly the metadata they crashed with; IPv6 / plain-transport / GossipNodes dimensions.",
-    "C06": " One state exchange reporting several members suspect/dead (every suspicion it starts must run its own course); accusations at a newer incarnation than held; a refutation processed at the very moment the timer has run out (log-sink hook, no virtual time passes).",
+    "C02": " Accusations that arrive while the node has nobody to gossip to (fresh start, or every peer dead for longer than GossipToTheDeadTime): the refutation must survive the idle gossip rounds and reach the first peer that becomes known. An accusation behind a backlog of 5000 untransmitted broadcasts.",
+    "C03": " Scenario dimensions also include IPv6 addresses, a transport implementing only the older Transport interface, GossipNodes 1/6. Up to 60 members now and then.",
+    "C04": " Members on IPv6 addresses; delegates whose LocalState takes 0.3-2.5 s. A 72-member cluster; metadata changes announced seconds later.",
+    "C05": " Veteran restarts that come back with exactly the metadata they crashed with; IPv6 / plain-transport / GossipNodes dimensions. Departed names coming back from their old or another address (PRNG and scripted).",
+    "C06": " One state exchange reporting several members suspect/dead (every suspicion it starts must run its own course); accusations at a newer incarnation than held; a refutation processed at the very moment the timer has run out (log-sink hook, no virtual time passes). Names refused by the alive delegate must not count as cluster size.",
     "C07": " Start-up scenario: claims about the node's own name waiting at its address while it is created (registered finding C07/own-claim-before-announce/*).",
-    "C08": " Real-time part (simulated network on the real clock): a second Leave while the first still waits for its departure to be gossiped; Leave while an UpdateNode sits in the alive callback.",
-    "C10": " Concurrent producers for the same subjects with completion callbacks that take a while: exactly one broadcast per subject remains, every superseded one completed once.",
-    "C12": " A ping with nothing piggybacked; every encryption roll-out pair in quick; floods with the delegate free-running.",
-    "C13": " Victim whose keys are installed at run time; the node itself opening a state exchange towards a peer that never reads (bounded socket buffers in the simulated streams).",
-    "C14": " Keys installed at run time into an empty keyring; a key removed while a stream sealed under it is still arriving.",
-    "C17": " Rotation driven through the application's own keyring handles, with Keyring and SecretKey both configured.",
-    "C18": " The node's own advertised address changing to a disallowed one before UpdateNode.",
+    "C08": " Real-time part (simulated network on the real clock): a second Leave while the first still waits for its departure to be gossiped; Leave while an UpdateNode sits in the alive callback. Leave behind a backlog of 1500 broadcasts.",
+    "C10": " Concurrent producers for the same subjects with completion callbacks that take a while: exactly one broadcast per subject remains, every superseded one completed once. Pruning queues of hundreds of broadcasts; broadcasts whose Message() changes length after queueing (budget clause and panic-freedom only).",
+    "C12": " A ping with nothing piggybacked; every encryption roll-out pair in quick; floods with the delegate free-running. Join-target forms and odd node names; a member that left and came back from another address must be reachable through the Node the sender lists.",
+    "C13": " Victim whose keys are installed at run time; the node itself opening a state exchange towards a peer that never reads (bounded socket buffers in the simulated streams). 600-1100 silent inbound streams at once.",
+    "C14": " Keys installed at run time into an empty keyring; a key removed while a stream sealed under it is still arriving. Unauthentic packets while genuine messages wait for a busy delegate.",
+    "C17": " Rotation driven through the application's own keyring handles, with Keyring and SecretKey both configured. 46 KB reliable payloads in the rotation probes.",
+    "C18": " The node's own advertised address changing to a disallowed one before UpdateNode. Two state exchanges of 300 members in a row.",
     "C19": " An acknowledgement carrying the number of a relayed ping that could not be sent.",
     "C20": " SendReliable / Join towards a member that completes the handshake and never reads (bounded socket buffers): the call returns about TCPTimeout later, Shutdown works, nothing stays behind.",
+    "C09": " Join with a host that knows 420 members.",
+    "C15": " Application state and reliable messages far beyond 64 KiB.",
+    "C16": " 440 streams of which 300 carry broken label headers.",
 }
 
 NOT_YET = "check not built yet in this round (design in DESIGN.md §3); not claimed until its monitor runs clean on the unchanged tree"
